@@ -429,7 +429,11 @@ class OutdoorCrops:
                 )
 
             else:
-                crops_produced = np.array(self.NO_RELOCATION_KCALS_GROWN)
+                # the cropland occupied by greenhouses no longer produces outdoor crops
+                crops_produced = np.multiply(
+                    np.array(self.NO_RELOCATION_KCALS_GROWN),
+                    (1 - np.array(greenhouse_fraction_area)),
+                )
 
         else:
             crops_produced = np.array([0] * self.NMONTHS)
